@@ -18,6 +18,8 @@ VERUS_UNITS = {
     'U-MP-X': dict(module='contracts.verus.msgpack_transcode', min_verified=24, timeout=600,
                    native_search=dict(src='src/msgpack.rs', file='msgpack_search.rs'),
                    props=['C03', 'C18', 'C04', 'C02']),
+    'U-VAL-V': dict(module='contracts.verus.transcode_value', min_verified=3, timeout=600,
+                    props=['C01', 'C06']),
     'U-MAIN-V': dict(module='contracts.verus.cli_main', min_verified=7, timeout=600,
                      props=['C14', 'C03', 'C15', 'C13']),
     'U-CAP-V': dict(module='contracts.verus.input_capture', min_verified=18, timeout=600,
@@ -323,12 +325,13 @@ PROPERTIES = {
                     'sequence the deserializer produced. Scalars (17 visit methods of the streaming transcoder, 21 visit forms of transcode::Value): same type, '
                     'bit-identical value, for every value (complete). Sequences/maps: serialize_seq/map(size_hint), then elements / key-value alternation in '
                     'deserializer order, then end(), compared event by event on the fly (bounded mock depth; depth induction machine-checked by tx_depth_induction_step). '
-                    'Text of UTF-16/32 YAML reaches the parser code point for code point: decoder step contracts (complete) and the Verus re-encoder contract (U-ENC-V).',
+                    'Text of UTF-16/32 YAML reaches the parser code point for code point: decoder step contracts (complete) and the Verus re-encoder contract (U-ENC-V). '
+                    'transcode::Value composites (Verus U-VAL-V, any length): visit_seq / visit_map keep exactly the elements / entries the deserializer handed out, in order; a map is serialized as serialize_map(Some(len)), its entries in Vec order, end().',
         assumptions=['every parser and writer crate is faithful (serde_json, serde_yaml, toml, rmp-serde: assumed)',
                      'JSON float parsing without serde_json float_roundtrip is known NOT to be exact (one-ULP loss on ~10% of 17-digit floats): xt contains no float-parsing code, so no contract on xt code can express it',
                      'TOML table reordering and preserve_order are a dependency feature'],
         not_covered=['parsers and writers', 'JSON float ULP loss (known, outside this technique)', 'nesting deeper than the mock bound (argued by the per-function contracts, checked to depth 2 in the thorough tier)',
-                     'composite fidelity of transcode::Value (sequence / map order through Vec): Value::deserialize of a one-element sequence is out of CBMC\'s reach; only its scalar contract is proved']),
+                     'nested transcode::Value sequences on the serializer side go through serde\'s own Vec<T> impl (stand-in); the recursion itself is by serde (Value <-> Vec<Value>)']),
     'C02': dict(
         explanation='Schedule transparency of every reader xt owns (CaptureReader, FusedReader chain, Utf16/Utf32 decoders, Utf8Encoder, ChunkReader): the bytes '
                     'handed to the consumer are a function of the bytes delivered by the source for every pattern of short reads (step-inductive contracts). '
